@@ -208,7 +208,10 @@ def symlist_slice(it, lst, lo, hi, node=None):
 
 
 def symlist_contains(it, lst, x, node=None):
-    raise Unsupported('membership in symbolic list')
+    fn = getattr(lst, 'contains_fn', None)
+    if fn is None:
+        raise Unsupported('membership in symbolic list')
+    return fn(x)
 
 
 def symlist_concat(it, a, b):
@@ -259,6 +262,21 @@ def symbolic_comp(it, n, g, src, fr, kind):
                 it.ctx.assume(t)
         return it.eval(n.elt, f2)
     out = SymList(tag, length, elem, origin=('comp', src, n, fr, pos))
+    src_contains = getattr(src, 'contains_fn', None)
+    if src_contains is not None:
+        def contains(y):
+            c = z3.Int(it.ctx.fresh('c'))
+            f2 = Frame(parent=fr)
+            it.assign(g.target, SInt(c), f2)
+            conds = [src_contains(SInt(c))]
+            for cnd in g.ifs:
+                t = it.truth(it.eval(cnd, f2), cnd)
+                conds.append(z3.BoolVal(t) if isinstance(t, bool) else t)
+            v = it.eval(n.elt, f2)
+            e = values_equal(it, v, y)
+            conds.append(z3.BoolVal(e) if isinstance(e, bool) else e)
+            return z3.Exists([c], z3.And(conds))
+        out.contains_fn = contains
     it.ctx.notes.setdefault('comps', []).append(out)
     return out
 
